@@ -159,6 +159,12 @@ def control_superop(d, m, r, cid):
         return np.kron(np.diag(A_DIAG[:d]), np.eye(d))          # left multiplication by A
     if cid == 5:
         return superop(sys_unitary(d, (1, 1), m))
+    if cid == 6:
+        return np.kron(np.diag(B_DIAG[:d]), np.eye(d))
+    if cid == 7:
+        return np.kron(np.eye(d), np.diag(A_DIAG[:d]).T)          # right multiplication by A
+    if cid == 8:
+        return np.kron(np.eye(d), np.diag(B_DIAG[:d]).T)
     raise ValueError(cid)
 
 
